@@ -25,6 +25,8 @@ func runC17(c *Ctx) {
 	c17Paths(c, "C17.1")
 	c17Use(c, "C17.2")
 	c17Existence(c, "C17.3")
+	ruleNoGlobalState(c, "C17.4")
+	ruleCatalogNameMatch(c, "C17.5")
 }
 
 func c17Paths(c *Ctx, rule string) {
@@ -175,8 +177,20 @@ func c17Use(c *Ctx, rule string) {
 	key := f.Name + "|use-closes-previous"
 	closes := f.Calls(arm, false, "storage.RelationService.Close")
 	var prevClose *ast.CallExpr
+	prevName := recvName(f) + ".RelationService"
+	isPrev := func(e ast.Expr) bool {
+		if exprKey(e) == prevName {
+			return true
+		}
+		if id, ok := ast.Unparen(e).(*ast.Ident); ok {
+			if rhs, _, ok := f.definedBy(arm, f.ObjOf(id)); ok && exprKey(rhs) == prevName {
+				return true
+			}
+		}
+		return false
+	}
 	for _, cl := range closes {
-		if exprKey(cl.Fun.(*ast.SelectorExpr).X) == recvName(f)+".RelationService" {
+		if isPrev(cl.Fun.(*ast.SelectorExpr).X) {
 			prevClose = cl
 		}
 	}
@@ -213,7 +227,7 @@ func c17Use(c *Ctx, rule string) {
 					}
 					// previous service exists: `s.RelationService != nil` is true
 					if info, ok := g.EdgeInfo(b, si); ok {
-						if be, ok := ast.Unparen(info.Cond).(*ast.BinaryExpr); ok && exprKey(be.X) == recvName(f)+".RelationService" && isNilIdent(f, be.Y) {
+						if be, ok := ast.Unparen(info.Cond).(*ast.BinaryExpr); ok && isPrev(be.X) && isNilIdent(f, be.Y) {
 							if (be.Op == token.NEQ) != info.Val {
 								return false
 							}
